@@ -53,11 +53,11 @@ class C03(Property):
         'permutation, sort_substances_inplace): the model is a pure function, the real code is tied by history correspondence / oracle only',
         'the text level of Reaction.from_string (splitting on " + ", "->", ";", parentheses, `n * X`) is C12 s model; here only the multiset '
         'semantics of the written terms is modelled (mergeTerms, theorem written_terms_spec) and tied by the from_string correspondence',
-        'the MassAction-instance branch of law_of_mass_action_rates (lookup by key in dict(zip(keys, conc)), KeyError for a foreign '
-        'reactant) and the refusal of other RateExpr parameters are modelled (lawOfMassActionRatesK) but have no theorem relating them to '
-        'the plain branch: correspondence and oracle only; likewise species given by integer index (as_substance_index)',
-        'the forms of Reaction.param handled by rate_expr (MassAction([k]), objects with as_RateExpr(), strings): that they all denote '
-        'the same mass-action expression is correspondence / oracle; only the named-constant lookup is in a theorem (rate_with_given_ratex)',
+        'species given by integer index (as_substance_index, negative indices included) and the KeyError-vs-ValueError difference of the '
+        'MassAction branch on malformed input: modelled (lawOfMassActionRatesK) / correspondence; the agreement of the two branches on '
+        'well-formed input is theorem law_branches_agree',
+        'that MassAction([k]) and objects with as_RateExpr() denote the same mass-action expression as the plain number is '
+        'correspondence / oracle (the model has one `Param.const`); named constants are theorem named_parameter_feeds_rate',
         'refusal of malformed reaction lines (no arrow, too many parts, unknown key): compared with C12 s text model, no theorem here',
         'the backend= argument (math / numpy / sympy / chempy.units.Backend()) does not change the value, also for Python ints beyond 2**63: '
         'correspondence and oracle only (the model has no backend)',
@@ -69,8 +69,8 @@ class C03(Property):
         'law_of_mass_action_rates with the DEFAULT variables=None and the literal dCdt_list(rsys, law_of_mass_action_rates(c, rsys)) '
         '(both repaired in /repo 4a92d03; model lawOfMassActionRatesDefaultVars / dCdtListOfGenerator): correspondence and oracle, '
         'array_path_eq_dict_path is stated for the list of rates',
-        'error agreement of the array path (ValueError for an unknown reactant, IndexError for a short conc/rates): modelled, '
-        'correspondence only',
+        'which of several offending reactants decides the exception class of the array path (the FIRST in reaction/dict order): '
+        'correspondence and oracle; array_path_success_and_refusal gives the exact success condition and the meaning of each class',
     )
     anchors = (('chempy/chemistry.py', 'Reaction.keys'), ('chempy/chemistry.py', 'Reaction.net_stoich'),
                ('chempy/chemistry.py', 'Reaction.all_reac_stoich'), ('chempy/chemistry.py', 'Reaction.active_reac_stoich'),
